@@ -7,13 +7,15 @@ Ev == T[l]
 Check(name, cond) == IF cond THEN TRUE ELSE (PrintT(<<"AT", tid, l, name>>) /\ FALSE)
 O == Ev.obs
 X == [id |-> Ev.case.id, cr |-> Ev.case.cr, up |-> Ev.case.up, lab |-> Ev.case.lab, refs |-> Ev.case.refs, dataset |-> Ev.case.dataset,
-      nrows |-> Ev.case.nrows, extracol |-> Ev.case.extracol, sheet |-> Ev.case.sheet,
+      nrows |-> Ev.case.nrows, extracol |-> Ev.case.extracol, sheet |-> Ev.case.sheet, nsset |-> Ev.case.nsset,
       saveto |-> {<<Ev.case.saveto[i][1], Ev.case.saveto[i][2]>> : i \in 1..Len(Ev.case.saveto)}]
 BindCalc(sfx) == LET S == {i \in 1..Len(O.binds) : O.binds[i][1] = sfx} IN IF S = {} THEN "?" ELSE O.binds[CHOOSE i \in S : TRUE][2]
 C19Env ==
   /\ Check("invalid_combination_rejected", Rejected(X) <=> Ev.status = "pyxform_error")
   /\ Check("no_crash", Ev.status \in {"ok", "pyxform_error"})
   /\ (Ev.status = "ok" =>
+       /\ Check("output_wellformed_and_namespace_valid", O.parse_ok)
+       /\ Check("custom_namespaces_still_declared", X.nsset => O.custom_ns_declared)
        /\ Check("entity_declared_iff_sheet", O.present = Declares(X))
        /\ Check("namespace_and_version_iff_declared", (O.ns_declared = Declares(X)) /\ ((O.version # "") = Declares(X)))
        /\ (Declares(X) =>
